@@ -1,6 +1,6 @@
 (* Property C05: a stored fitness is never stale. *)
 From Coq Require Import List Bool Arith.
-From Bingo Require Import Model.Pipeline Proofs.PipelineProofs.
+From Bingo Require Import Model.Pipeline Model.ArchPipeline Proofs.PipelineProofs Proofs.ArchPipelineProofs.
 Import ListNotations.
 
 Section C05.
@@ -49,9 +49,38 @@ Proof.
   - left. exists pop, age. split; auto.
   - right. exact E.
 Qed.
+
+(* 3. every history of an ARCHIPELAGO of any number of islands: each island goes through the operations of theorem 2 in any
+      interleaving, and islands migrate with one another - the individuals arriving at one island are the ones leaving the other,
+      so the premise of theorem 2 about arrivals is discharged by the sender's own invariant; only individuals brought in from
+      OUTSIDE the archipelago (AIsland k (IMigrate ...)) keep that premise.  Never a missing or stale read on any island; at
+      every boundary every flagged individual of every island carries its true fitness *)
+Theorem C05_archipelago_history_never_stale :
+  forall a ops isls0,
+  Forall (fun st => Forall (fun i => stored G F i = None /\ flag G F i = false) (fst st)) isls0 ->
+  Forall (fun o => match o with
+                   | AIsland _ _ _ (IMigrate _ _ _ incoming) =>
+                       Forall (fun i => stored G F i = None \/ stored G F i = Some (fit (genome G F i))) incoming
+                   | _ => True end) ops ->
+  (exists isls, arch_run G F fit opt feq g0 a isls0 ops = Ok isls /\
+      Forall (fun st => Forall (fun i => flag G F i = true -> stored G F i = Some (fit (genome G F i))) (fst st)) isls)
+  \/ arch_run G F fit opt feq g0 a isls0 ops = BadOracle.
+Proof.
+  intros a ops isls0 H0 Hops.
+  assert (Hi : Forall (island_inv G F fit) isls0).
+  { eapply Forall_impl; [|exact H0]. intros st H. split.
+    - eapply Forall_impl; [|exact H]. intros i [_ Hf] Hc. congruence.
+    - eapply Forall_impl; [|exact H]. intros i [Hs _]. left. exact Hs. }
+  assert (Ho : Forall (aop_ok G F fit) ops).
+  { eapply Forall_impl; [|exact Hops]. intros o H. destruct o as [k io|]; [|exact I]. destruct io; try exact I. exact H. }
+  destruct (arch_run_ok G F fit opt feq feq_refl g0 a ops isls0 Hi Ho) as [(isls & E & I1)|E].
+  - left. exists isls. split; [exact E|]. eapply Forall_impl; [|exact I1]. intros st [Hf _]. exact Hf.
+  - right. exact E.
+Qed.
 End C05.
 Print Assumptions C05_generational_step_reads_only_true_fitness.
 Print Assumptions C05_island_history_never_stale.
+Print Assumptions C05_archipelago_history_never_stale.
 
 (* non-vacuity: mu,lambda from an UNEVALUATED population (the F4 situation) goes through *)
 Example C05_example :
@@ -68,4 +97,16 @@ Example C05_history_example :
     ([mkInd nat nat 1 None false; mkInd nat nat 2 None false], 0)
     [IStep nat nat [OCopy nat 0; ONew nat [1] 7] [0; 3]; IMigrate nat nat [1] [mkInd nat nat 4 None false]; IBest nat nat]
   = Ok ([mkInd nat nat 7 (Some 70) true; mkInd nat nat 4 (Some 40) true], 1).
+Proof. vm_compute. reflexivity. Qed.
+
+(* non-vacuity of the archipelago theorem: two islands, one evolves a generation, they migrate (island 0 keeps member 0 and sends
+   member 1; island 1, never evaluated, keeps member 1 and sends member 0), island 0 is asked for its best: the unevaluated
+   arrival is evaluated first *)
+Example C05_archipelago_example :
+  arch_run nat nat (fun g => 10 * g) (fun g => g) Nat.eqb 0 MuPlusLambda
+    [([mkInd nat nat 1 None false; mkInd nat nat 2 None false], 0); ([mkInd nat nat 5 None false; mkInd nat nat 6 None false], 0)]
+    [AIsland nat nat 0 (IStep nat nat [OCopy nat 0; ONew nat [1] 7] [0; 3]); AExchange nat nat 0 1 [0] [1] [1] [0];
+     AIsland nat nat 0 (IBest nat nat)]
+  = Ok [([mkInd nat nat 1 (Some 10) true; mkInd nat nat 5 (Some 50) true], 1);
+        ([mkInd nat nat 6 None false; mkInd nat nat 7 (Some 70) false], 0)].
 Proof. vm_compute. reflexivity. Qed.
